@@ -201,3 +201,14 @@ _EDITS2 = [
 for _k, _a, _b in _EDITS2:
     assert _a in TEXTS[_k][0], (_k, _a)
     TEXTS[_k] = (TEXTS[_k][0].replace(_a, _b), TEXTS[_k][1])
+
+_EDITS3 = [
+ ("C01", "The composition over the scheduler",
+  "The drain: in any reachable state, when a cycle begins and runs to the end of its drain, with its pops interleaved in any way "
+  "with calls, pushes and exits of any threads, every command that was in the ring of a registered thread at the beginning is in "
+  "the batch that cycle processes (the registry lists no thread twice in any reachable state); so a span set pushed before a "
+  "cycle begins is reported by that cycle, exactly once. The composition over the scheduler"),
+]
+for _k, _a, _b in _EDITS3:
+    assert _a in TEXTS[_k][0], (_k, _a)
+    TEXTS[_k] = (TEXTS[_k][0].replace(_a, _b), TEXTS[_k][1])
